@@ -2,6 +2,7 @@ import Pko.Util
 import Pko.Model.Deploy
 import Pko.Model.DeploySpec
 import Pko.Model.DeployRetry
+import Pko.Model.DeployMulti
 /-! Line driver for C16 (everything but `main`, so that the C09 driver can reuse the scenario
 format, the leaf outcomes and the parsers for its stream `pkgpause`).  `model` prints what the model of `Deploy` / the Package controller does
 for a scenario (same format as the Go harnesses); `monitor` parses the IMPLEMENTATION's line into
@@ -12,7 +13,7 @@ for the concrete inputs the harness builds (e.g. "Kubernetes >=1.20.x against 1.
 It is confirmed by the correspondence run, where the real loader / semver / schema / renderer
 evaluate those inputs. -/
 namespace Pko.Drv.C16
-open Lean Pko.Model.Deploy Pko.Model.DeploySpec Pko.Model.DeployRetry
+open Lean Pko.Model.Deploy Pko.Model.DeploySpec Pko.Model.DeployRetry Pko.Model.DeployMulti
 
 structure JPkg where
   load : String
@@ -20,6 +21,8 @@ structure JPkg where
   render : String
   comps : Bool
   badlock : Bool
+  name : Option String      -- package name family: images with the same name are versions of ONE package
+  schema : Option String    -- config schema variant of the manifest (`verifc16.Schemas`)
   deriving FromJson
 
 structure JEnv where
@@ -34,6 +37,7 @@ structure JOp where
   f : String
   v : Nat
   fault : String
+  p : Option Nat            -- ctrl stream: the Package the op is about (0 = the one with the initial spec `spec`)
   deriving FromJson
 
 structure Scn where
@@ -46,6 +50,7 @@ structure Scn where
   pkgs : List JPkg
   spec : List Nat
   ops : List JOp
+  more : Option (List (List Nat))   -- ctrl stream: initial specs of the Packages 1, 2, ...
   deriving FromJson
 
 /-! ### leaf outcomes of the harness's concrete inputs -/
@@ -66,6 +71,21 @@ def uniqOut (sc : Scn) (cons : List String) : UOut :=
     | "0" => .zero | "1" => .one | "2" => .many | _ => .listErr
   else .absent
 
+/-- Config admission for the harness's concrete schemas and configs (`verifc16.Schemas`, `verifc16.ConfigRaw`):
+0 none, 1 {x:a}, 2 {x:b}, 3 {x:7}, 4 {x:a,y:z}.  A function of the manifest's schema and the config alone. -/
+def admitOf (schema : String) (config : Nat) : Admit :=
+  let bad : List Nat := match schema with
+    | "enum" => [2, 3]      -- x: string, enum [none, a]
+    | "int" => [1, 2, 4]    -- x: integer
+    | "req" => [0, 3]       -- x: string, required, no default
+    | _ => [3]              -- x: string ("" / dflt / open)
+  if bad.contains config then .invalid else .ok
+
+def schemaOf (sc : Scn) (image : Nat) : String :=
+  match sc.pkgs[image]? with
+  | some p => p.schema.getD ""
+  | none => ""
+
 def leavesOf (sc : Scn) (loaderFault : Bool) (s : Spec) : Leaves :=
   match sc.pkgs[s.image]? with
   | none => { load := false, cons := [], uniq := .absent, cfgJson := true, admission := .ok, images := true,
@@ -80,17 +100,24 @@ def leavesOf (sc : Scn) (loaderFault : Bool) (s : Spec) : Leaves :=
       cons := (cons.map (conOut sc.env)).flatten
       uniq := uniqOut sc cons
       cfgJson := s.config != 5
-      admission := if s.config == 3 then .invalid else .ok
+      admission := admitOf (p.schema.getD "") s.config
       images := !p.badlock
       render := p.render == "ok"
       desired := true }
 
-def xOf : Nat → String
-  | 0 => "none" | 1 => "a" | 2 => "b" | 3 => "7" | 4 => "a" | _ => "?"
+/-- `.config.x` (and, schema `open`, `/` + `.config.y`) as the templates see it after pruning and defaulting
+against the manifest's schema. -/
+def xOf (schema : String) : Nat → String
+  | 0 => (match schema with | "int" => "0" | "dflt" => "other" | _ => "none") ++ (if schema == "open" then "/dy" else "")
+  | 1 => "a" ++ (if schema == "open" then "/dy" else "")
+  | 2 => "b" ++ (if schema == "open" then "/dy" else "")
+  | 3 => "7" ++ (if schema == "open" then "/dy" else "")
+  | 4 => "a" ++ (if schema == "open" then "/z" else "")
+  | _ => "?"
 
 /-- What a fresh render of a spec looks like in the stored template (`verifc16.TemplateID`). -/
-def renderId (s : Spec) : String :=
-  s!"p{s.image}{if s.component == 1 then "c1" else ""}.{s.image}.{xOf s.config}"
+def renderId (sc : Scn) (s : Spec) : String :=
+  s!"p{s.image}{if s.component == 1 then "c1" else ""}.{s.image}.{xOf (schemaOf sc s.image) s.config}"
 
 /-- "conflict<N>": a third party writes before each of the next N Updates. -/
 def conflictOf (f : String) : Option Nat :=
@@ -116,23 +143,37 @@ def specOf (l : List Nat) : Option Spec :=
   | [a, b, c] => some ⟨a, b, c⟩
   | _ => none
 
-/-- History of a ctrl scenario (`none` = malformed: BAD-OP / BAD-SCN). -/
-def opsOf (sc : Scn) : Spec → List JOp → Option (List Op)
+/-- History of a ctrl scenario (`none` = malformed: BAD-OP / BAD-SCN): `specs` = the current spec of every
+Package of the process. -/
+def mopsOf (sc : Scn) : List Spec → List JOp → Option (List MOp)
   | _, [] => some []
-  | s, j :: js =>
-    match j.op with
-    | "edit" =>
-      let s' : Option Spec := match j.f with
-        | "image" => some { s with image := j.v }
-        | "config" => some { s with config := j.v }
-        | "component" => some { s with component := j.v }
-        | "meta" => some s
-        | _ => none
-      match s' with
-      | none => none
-      | some s' => if s'.image < sc.pkgs.length then (opsOf sc s' js).map (Op.edit s' :: ·) else none
-    | "pass" => (opsOf sc s js).map (Op.pass (faultsOf j.fault) :: ·)
-    | _ => none
+  | specs, j :: js =>
+    let k := j.p.getD 0
+    match specs[k]? with
+    | none => none
+    | some s =>
+      match j.op with
+      | "edit" =>
+        let s' : Option Spec := match j.f with
+          | "image" => some { s with image := j.v }
+          | "config" => some { s with config := j.v }
+          | "component" => some { s with component := j.v }
+          | "meta" => some s
+          | _ => none
+        match s' with
+        | none => none
+        | some s' =>
+          if s'.image < sc.pkgs.length then (mopsOf sc (specs.set k s') js).map (MOp.on k (.edit s') :: ·) else none
+      | "pass" => (mopsOf sc specs js).map (MOp.on k (.pass (faultsOf j.fault)) :: ·)
+      | "restart" => if k == 0 then (mopsOf sc specs js).map (MOp.restart :: ·) else none
+      | _ => none
+
+/-- The initial specs of the Packages of a ctrl scenario. -/
+def specsOf (sc : Scn) : Option (List Spec) := do
+  let s0 ← specOf sc.spec
+  let more ← (sc.more.getD []).mapM specOf
+  let specs := s0 :: more
+  if specs.all (·.image < sc.pkgs.length) then some specs else none
 
 /-! ### printing -/
 
@@ -170,10 +211,13 @@ def odOf (s : String) : OD String := absOD (srvOf s)
 
 /-- Annotations / labels of `desiredObjectDeployment` for a spec, in the vocabulary of
 `verifc16.MetaID`. -/
-def desiredOf (s : Spec) : Obj String :=
+def desiredOf (sc : Scn) (s : Spec) : Obj String :=
+  let name := match sc.pkgs[s.image]? with
+    | some p => (match p.name with | some n => if n.isEmpty then s!"pkg{s.image}" else s!"fam-{n}" | none => s!"pkg{s.image}")
+    | none => s!"pkg{s.image}"
   ⟨0, none, [("img", toString s.image), ("cfg", toString s.config), ("cc", "inst")],
    -- the manifest name of a component is the component's name (the structural loader renames it)
-   [("pkg", if s.component == 1 then "c1" else s!"pkg{s.image}"), ("inst", "p")]⟩
+   [("pkg", if s.component == 1 then "c1" else name), ("inst", "p")]⟩
 
 /-- Key of the i-th third-party write of a pass (`verifc16.Client.thirdPartyWrite`). -/
 def tpKey (i : Nat) : String := s!"tp{i + 1}"
@@ -211,7 +255,7 @@ def deployCase (sc : Scn) : Option DeployCase := do
   if s.image ≥ sc.pkgs.length then none
   let fault := (sc.ops.filter (·.op == "pass")).getLast?.map (·.fault) |>.getD ""
   some { L := leavesOf sc (fault == "loader") s, f := (faultsOf fault).recon, inv := priorOf sc.prior,
-         od := odOf sc.od, t := renderId s, srv := srvOf sc.od, desired := desiredOf s }
+         od := odOf sc.od, t := renderId sc s, srv := srvOf sc.od, desired := desiredOf sc s }
 
 def listsOf (L : Leaves) : Nat :=
   if L.load && (consLoop L.cons).isSome && L.uniq != .absent then 1 else 0
@@ -227,22 +271,23 @@ def modelDeploy (sc : Scn) : String :=
 /-! ### ctrl stream -/
 
 def modelCtrl (sc : Scn) : String :=
-  match specOf sc.spec with
+  match specsOf sc with
   | none => "BAD-SCN"
-  | some s0 =>
-    if s0.image ≥ sc.pkgs.length then "BAD-SCN" else
-    match opsOf sc s0 sc.ops with
+  | some specs =>
+    match mopsOf sc specs sc.ops with
     | none => "BAD-SCN"
     | some ops =>
-      let tr := trace (H := Spec) id renderId (leavesOf sc false) (fresh s0) ops
-      let rec go (sp : Spec) : List Op → List (Option (PassRes Spec String)) → List String
-        | .edit s :: ops, _ :: rs => "e" :: go s ops rs
-        | .pass _ :: ops, some r :: rs =>
+      let tr := traceM (H := Spec) id (renderId sc) (leavesOf sc false) (specs.map fresh) ops
+      let rec go (specs : List Spec) : List MOp → List (Option (PassRes Spec String)) → List String
+        | .restart :: ops, _ :: rs => "R" :: go specs ops rs
+        | .on k (.edit s) :: ops, _ :: rs => "e" :: go (specs.set k s) ops rs
+        | .on k (.pass _) :: ops, some r :: rs =>
           let o := obsOf r
-          s!"r={resStr o.res} pull={if o.pulls == 0 then "" else toString sp.image} dep={o.deploys} w={writesStr o.writes} t={odStr o.od} h={hashStr o.hash} un={unpackedStr o.unpacked} inv={invCondStr o.invalid}"
-            :: go sp ops rs
+          let img := match specs[k]? with | some sp => toString sp.image | none => "?"
+          s!"r={resStr o.res} pull={if o.pulls == 0 then "" else img} dep={o.deploys} w={writesStr o.writes} t={odStr o.od} h={hashStr o.hash} un={unpackedStr o.unpacked} inv={invCondStr o.invalid}"
+            :: go specs ops rs
         | _, _ => []
-      ";".intercalate (go s0 ops tr)
+      ";".intercalate (go specs ops tr)
 
 def model (sc : Scn) : String :=
   if sc.mode == "deploy" then modelDeploy sc else modelCtrl sc
@@ -353,29 +398,39 @@ def staleRun {H T : Type} [DecidableEq H] [DecidableEq T] (hash : Spec → H) (r
       staleRun hash render W { m with ph := o.hash, pod := o.od, idx := m.idx + 1 } ops obs
   | _, _, _ => []
 
+/-- `staleRun` for every Package of a process history (see `checkRunM`). -/
+def staleRunM (sc : Scn) (specs : List Spec) (ops : List MOp) (obs : List (Option (PObs Spec String))) :
+    List (Nat × Nat × String) :=
+  (List.range specs.length).flatMap fun k =>
+    (staleRun (H := Spec) id (renderId sc) (leavesOf sc false)
+      { spec := specs.getD k default, ph := none, pod := none, lateSeen := false, idx := 0 }
+      (proj k ops) (projObs k ops obs)).map fun v => (k, v)
+
 def monitorCtrl (sc : Scn) (out : String) : String :=
   let bad := if out == "BAD-SCN" then "ok" else s!"bad shape expected BAD-SCN got {out.take 60}"
-  match specOf sc.spec with
+  match specsOf sc with
   | none => bad
-  | some s0 =>
-    if s0.image ≥ sc.pkgs.length then bad else
-    match opsOf sc s0 sc.ops with
+  | some specs =>
+    match mopsOf sc specs sc.ops with
     | none => bad
     | some ops =>
       let steps := if out.isEmpty then [] else out.splitOn ";"
       let obs : Option (List (Option (PObs Spec String))) :=
-        steps.mapM fun st => if st == "e" then some none else (parsePObs st).map some
+        steps.mapM fun st => if st == "e" || st == "R" then some none else (parsePObs st).map some
       match obs with
       | none => s!"bad unparsable {out.take 100}"
       | some obs =>
-        match checkRun (H := Spec) id renderId (leavesOf sc false)
-            { spec := s0, ph := none, pod := none, lateSeen := false, idx := 0 } ops obs with
+        if obs.length != ops.length then s!"bad shape steps={obs.length} ops={ops.length}" else
+        -- the property, Package by Package: each Package's own edits and passes and what was observed about it
+        let msg := fun (kv : Nat × Nat × String) =>
+          let i := globalIdx kv.1 ops kv.2.1
+          s!"bad {kv.2.2} step={i} got={steps.getD i ""}" ++ (if specs.length > 1 then s!" package={kv.1}" else "")
+        match checkRunM (H := Spec) id (renderId sc) (leavesOf sc false) specs ops obs with
         | [] =>
-          match staleRun (H := Spec) id renderId (leavesOf sc false)
-              { spec := s0, ph := none, pod := none, lateSeen := false, idx := 0 } ops obs with
+          match staleRunM sc specs ops obs with
           | [] => "ok"
-          | (i, v) :: _ => s!"bad {v} step={i} got={steps.getD i ""}"
-        | (i, v) :: _ => s!"bad {v} step={i} got={steps.getD i ""}"
+          | kv :: _ => msg kv
+        | kv :: _ => msg kv
 
 def monitor (sc : Scn) (out : String) : String :=
   if sc.mode == "deploy" then monitorDeploy sc out else monitorCtrl sc out
